@@ -285,7 +285,7 @@ def run(chk):
             return "one common network, one slice per wrapper"
         chk.run("C10.R5", f"{modname}:{fname}", {}, go, construct=f"{fname} shared outputs")
 
-    chk.rule("C10.R6", "factories: slice_solution None = all declared outputs, integer k (0 included) = [k:k+1], slice kept; the "
+    chk.rule("C10.R6", "factories: slice_solution None = all declared outputs, integer k (0 and negative k included) = component k alone, slice kept; the "
                        "other specifications reach the wrapper unchanged", floor=6)
     factory_slice_rule(chk, "C10.R6", w)
 
@@ -299,7 +299,8 @@ def factory_slice_rule(chk, rule_id, w=None):
     layer = lambda *a, **k: OpaqueObj(f"layer{a}")
     act = lambda x: x
     eqx_list = ((layer, 2, 8), (act,), (layer, 8, 3))
-    cases = [(None, slice(0, 3)), (0, slice(0, 1)), (1, slice(1, 2)), (2, slice(2, 3)), (slice(1, 3), slice(1, 3)), (slice(0, 1), slice(0, 1))]
+    # what is compared is the list of output components the stored slice selects (not how the slice is written)
+    cases = [(None, [0, 1, 2]), (0, [0]), (1, [1]), (2, [2]), (-1, [2]), (-2, [1]), (slice(1, 3), [1, 2]), (slice(0, 1), [0])]
     for modname, fname, extra in ((PINN_MOD, "create_PINN", {}),):
         for given, want in cases:
             def go(modname=modname, fname=fname, given=given, want=want, extra=extra):
@@ -309,8 +310,13 @@ def factory_slice_rule(chk, rule_id, w=None):
                 net = create(Sym('key'), eqx_list, "nonstatio_PDE", 1, input_transform=it, output_transform=ot,
                              slice_solution=given, **extra)
                 got = net.fields['slice_solution']
-                if got != want:
-                    raise Violation(f"{fname}(slice_solution={given!r})", f"the wrapper's solution slice is {got}", f"{want}")
+                if not isinstance(got, slice):
+                    raise Violation(f"{fname}(slice_solution={given!r})", f"the wrapper's solution slice is {got!r}: indexing with it "
+                                    f"drops the component axis", "a slice")
+                sel = list(range(3))[got]
+                if sel != want:
+                    raise Violation(f"{fname}(slice_solution={given!r})", f"the wrapper's solution slice is {got}: it selects the "
+                                    f"components {sel} of 3 outputs", f"components {want}")
                 if net.fields['eq_type'] != "nonstatio_PDE" or net.fields['input_transform'] is not it \
                         or net.fields['output_transform'] is not ot or net.fields['output_slice'] is not None:
                     raise Violation(f"{fname}", "equation type / transforms / output slice altered on the way to the wrapper", "unchanged")
